@@ -54,6 +54,12 @@ def fam_c10(R, n):
     for w in BLITS + [b'k', b'S', b'sk']:
         for ic in (True, False):
             out.append(c10_btoken_case(w, ic))
+    # every ASCII punctuation character inside a literal, str and byte-string, with and without ignore(case) (some of them
+    # become assertions when escaped: \\< \\> \\b ...)
+    for ch in '!"#$%&\'()*+,-./:;<=>?@[\\]^_`{|}~':
+        for ic in (True, False):
+            out.append(c10_token_case('a' + ch + 'b', ic))
+            out.append(c10_btoken_case(('a' + ch + 'b').encode('ascii'), ic))
     for i in range(n):
         r = R.random()
         if r < 0.2:
